@@ -1,8 +1,13 @@
 import FastorModel.Model.Footprint
+import FastorModel.Model.Kern3
+import FastorModel.Proofs.FootprintInside
 import FastorModel.Props.C01
 import FastorModel.Props.C02
 import FastorModel.Props.C03
+import FastorModel.Props.C05
 import FastorModel.Props.C06
+import FastorModel.Props.C14
+import FastorModel.Model.Inverse
 import FastorModel.Props.C17
 /-
 # C07 — No operation touches memory outside its operands, for any shape or alignment
@@ -17,17 +22,15 @@ tensor operation that completes normally (other than conversion to std::vector a
 What is a theorem here and what is not.
 * (a) **Footprints of the kernel models**: for the models of `_matmul`, `_tmatmul`, expression assignment and
   einsum (the ones tied to the code by the trace correspondences of C01 / C17 / C02 / C03: same store order, same
-  read-set digests), every write offset is `< M*N` / `< n` (`*_writes_in_result`) and every operand offset read by a
-  final store event is inside the operand (`matmul_final_reads_in_operands`, `tmatmul_final_reads_in_operands`,
-  `assign_reads_in_operands`, `einsum_reads_in_operands`).  `_partial`: for matmul / tmatmul the read statement
-  covers the events that produce the final value of each cell; the intermediate stores of the `M % 4` remainder
-  blocks and of `_matvecmul` re-read a prefix of the same `k` range (same row, same column), which the models
-  make evident but which is not proved here for all kernels (the driver checks it on every case it runs: `OOB=0`).
+  read-set digests), every write offset is `< M*N` / `< n` (`*_writes_in_result`) and every operand offset read is
+  inside the operand (`matmul_reads_in_operands`, `tmatmul_reads_in_operands`,
+  `assign_reads_in_operands`, `einsum_reads_in_operands`) — for matmul / tmatmul this covers EVERY store event, final or
+  intermediate (`matmul_reads_in_operands`, `matmul_read_sets_in_operands`: the sets whose digests the driver prints).
 * (b) **Partial load / store helpers** (`Footprint.load3`, `store3`, `maskLoop`, `maskAvx`, `arrayToMask`,
   `memberMask`, `remainderMask`): exactly the enabled lanes are touched, in every `#if` branch; the two mask idioms
   agree; the remainder mask of the kernels enables exactly the first `N - N1` lanes, so a masked access at column
-  `N1` of any row stays inside the row.  The non-AVX-512 fallback of the member `mask_store` writes *every* lane
-  (`member_mask_store_fallback_writes_all`, a counterexample to "exactly the enabled lanes" for that dead branch).
+  `N1` of any row stays inside the row.  The non-AVX-512 fallbacks of the member `mask_load` / `mask_store` touch exactly the enabled lanes as well
+  (`member_mask_fallback_lanes`; before the repair of the zeroing `mask_store` this was false — history in the design doc).
 * (c) **Aligned flag**: an access carries the aligned flag only when `is_aligned()` is true, which only owning
   `Tensor` storage of a SIMD element type reports (never `TensorMap`, never a view, never with
   `FASTOR_DONT_ALIGN` / `FASTOR_DONT_VECTORISE`), at an element offset that is a multiple of the width `V`, which in
@@ -93,18 +96,40 @@ theorem maskAvx_eq_maskLoop (V : Nat) (m : List Int) (hlen : m.length = V)
 theorem memberMask_mem (V mask l : Nat) : l ∈ memberMask V mask ↔ l < V ∧ mask.testBit l = true := by
   simp [memberMask, kmaskLanes]
 
-/-- the non-AVX-512 fallback of the member `mask_store` writes all `V` lanes, whatever the mask -/
-theorem member_mask_store_fallback_writes_all (V mask l : Nat) :
-    l ∈ memberMaskStoreFallback V mask ↔ l < V := by
-  unfold memberMaskStoreFallback
-  simp only [List.mem_map, List.mem_range]
-  constructor
-  · rintro ⟨i, hi, rfl⟩; omega
-  · intro h; exact ⟨V - 1 - l, by omega, by omega⟩
+/-- `mask_to_array` followed by the reversed loop: lane `l` iff bit `l` — the non-AVX-512 fallbacks of the member
+    `mask_load` and (since the repair that removed the zeroing of disabled lanes) `mask_store` touch exactly the
+    enabled lanes, like the AVX-512 branch -/
+theorem member_mask_fallback_lanes (V mask l : Nat) :
+    (l ∈ memberMaskLoadFallback V mask ↔ l < V ∧ mask.testBit l = true) ∧
+    (l ∈ memberMaskStoreFallback V mask ↔ l < V ∧ mask.testBit l = true) := by
+  have key : l ∈ maskLoop V (maskToArray V mask) ↔ l < V ∧ mask.testBit l = true := by
+    rw [maskLoop_mem]
+    constructor
+    · rintro ⟨hl, h⟩
+      refine ⟨hl, ?_⟩
+      have hlt : V - 1 - l < V := by omega
+      unfold maskToArray at h
+      rw [List.getD_eq_getElem?_getD, List.getElem?_map, List.getElem?_range hlt] at h
+      simp only [Option.map_some, Option.getD_some] at h
+      have e : V - (V - 1 - l) - 1 = l := by omega
+      rw [e] at h
+      by_cases hb : mask.testBit l = true
+      · exact hb
+      · rw [if_neg hb] at h; omega
+    · rintro ⟨hl, hb⟩
+      refine ⟨hl, ?_⟩
+      have hlt : V - 1 - l < V := by omega
+      unfold maskToArray
+      rw [List.getD_eq_getElem?_getD, List.getElem?_map, List.getElem?_range hlt]
+      simp only [Option.map_some, Option.getD_some]
+      have e : V - (V - 1 - l) - 1 = l := by omega
+      rw [e, if_pos hb]
+  exact ⟨key, key⟩
 
-/-- … so for that (dead) branch "exactly the enabled lanes" is false: mask `0b0011` of 4 lanes writes lane 3 -/
-theorem member_mask_store_fallback_counterexample :
-    3 ∈ memberMaskStoreFallback 4 0b0011 ∧ 3 ∉ memberMask 4 0b0011 := by decide
+/-- both fallbacks agree with the AVX-512 member functions -/
+theorem member_mask_fallback_eq_kmask (V mask l : Nat) :
+    l ∈ memberMaskStoreFallback V mask ↔ l ∈ memberMask V mask := by
+  rw [(member_mask_fallback_lanes V mask l).2, memberMask_mem]
 
 /-- invariant of the `array_to_mask` loop -/
 theorem arrayToMask_fold (N : Nat) (b : List Int) (is : List Nat) (c l : Nat) (hl : l < N)
@@ -470,22 +495,62 @@ theorem treadsA_eq (K : Nat) (segs : List Seg) :
 theorem treadsB_eq (N : Nat) (segs : List Seg) :
     Tmatmul.readsB N segs = segs.flatMap fun s => s.events.flatMap (teventReadsB N) := rfl
 
-/-- **matmul reads stay inside the operands** (events that produce the final value of a cell): for all shapes,
-    configurations, block sizes.  `_partial`: see the header. -/
-theorem matmul_final_reads_in_operands_partial (cfg : Cfg) (sz M K N : Nat) (hsz : sz = 4 ∨ sz = 8 ∨ sz = 16)
+/-- every segment of the selected kernel has well-formed intermediate events (Proofs/FootprintInside) -/
+theorem kernel_preOK (cfg : Cfg) (sz M K N : Nat) :
+    Matmul.AllSegs (Matmul.PreOK K) (Matmul.kernel cfg sz M K N).2.2 := by
+  unfold Matmul.kernel
+  cases Matmul.dispatch cfg false true sz M K N with
+  | matvec => exact Matmul.allSegs_matvec M _
+  | smallN => exact Matmul.allSegs_smallN _ M N _
+  | base => exact Matmul.allSegs_base M N _ _
+  | baseMasked => exact Matmul.allSegs_baseMasked _ M N _ _
+  | tiny => exact Matmul.allSegs_tiny M N _
+  | nonPrimitive => exact Matmul.allSegs_nonPrimitive M N
+  | spec => exact Matmul.allSegs_nonPrimitive M N
+
+/-- **matmul reads stay inside the operands — every store event**, final or intermediate (partial sums of the
+    `M % 4` remainder blocks and of `_matvecmul`, spilled lanes of the small-N kernels): for all shapes,
+    configurations, block sizes, every operand offset the model reads is `< M*K` resp. `< K*N`. -/
+theorem matmul_reads_in_operands (cfg : Cfg) (sz M K N : Nat) (hsz : sz = 4 ∨ sz = 8 ∨ sz = 16)
     (hN : N < 2 ^ 64) (hob : ∀ x, cfg.outerBlock = some x → 0 < x) (hib : ∀ x, cfg.innerBlock = some x → 0 < x)
-    (s : Seg) (hs : s ∈ (Matmul.kernel cfg sz M K N).2.2) (e : St) (he : e ∈ s.fin) :
-    (∀ x ∈ eventReadsA K e, x < M * K) ∧ (∀ x ∈ eventReadsB N e, x < K * N) ∧ e.pos N < M * N := by
-  obtain ⟨hr, hc, _, hkk, _⟩ := (C01.kernel_fills cfg sz M K N hsz hN hob hib).inside s hs e he
-  refine ⟨?_, ?_, pos_lt hr hc⟩
+    (s : Seg) (hs : s ∈ (Matmul.kernel cfg sz M K N).2.2) (e : St) (he : e ∈ s.events) :
+    (∀ x ∈ eventReadsA K e, x < M * K) ∧ (∀ x ∈ eventReadsB N e, x < K * N) := by
+  have hfill := C01.kernel_fills cfg sz M K N hsz hN hob hib
+  have key : ∀ r c kk, r < M → c < N → kk ≤ K →
+      (∀ x ∈ (List.range kk).map (fun k => r * K + k), x < M * K) ∧
+      (∀ x ∈ (List.range kk).map (fun k => k * N + c), x < K * N) := by
+    intro r c kk hr hc hk
+    constructor
+    · intro x hx
+      obtain ⟨k, hk', rfl⟩ := List.mem_map.1 hx
+      exact pos_lt hr (by have := List.mem_range.1 hk'; omega)
+    · intro x hx
+      obtain ⟨k, hk', rfl⟩ := List.mem_map.1 hx
+      exact pos_lt (by have := List.mem_range.1 hk'; omega) hc
+  rcases List.mem_append.1 he with hpre | hfin
+  · rcases kernel_preOK cfg sz M K N s hs e hpre with h0 | ⟨_, hkk, e', he', hr, hc⟩
+    · simp [eventReadsA, eventReadsB, h0]
+    · obtain ⟨hr', hc', _⟩ := hfill.inside s hs e' he'
+      exact key e.r e.c e.kk (hr ▸ hr') (hc ▸ hc') hkk
+  · obtain ⟨hr, hc, _, hkk, _⟩ := hfill.inside s hs e hfin
+    exact key e.r e.c e.kk hr hc (by omega)
+
+/-- the statement about the sets the driver prints (RDA / RDB): every element of `Matmul.readsA` / `readsB` of the
+    selected kernel is inside the operand -/
+theorem matmul_read_sets_in_operands (cfg : Cfg) (sz M K N : Nat) (hsz : sz = 4 ∨ sz = 8 ∨ sz = 16)
+    (hN : N < 2 ^ 64) (hob : ∀ x, cfg.outerBlock = some x → 0 < x) (hib : ∀ x, cfg.innerBlock = some x → 0 < x) :
+    (∀ x ∈ Matmul.readsA K (Matmul.kernel cfg sz M K N).2.2, x < M * K) ∧
+    (∀ x ∈ Matmul.readsB N (Matmul.kernel cfg sz M K N).2.2, x < K * N) := by
+  rw [readsA_eq, readsB_eq]
+  constructor
   · intro x hx
-    obtain ⟨k, hk, rfl⟩ := List.mem_map.1 hx
-    have hk' : k < K := by rw [← hkk]; exact List.mem_range.1 hk
-    exact pos_lt hr hk'
+    obtain ⟨s, hs, hx⟩ := List.mem_flatMap.1 hx
+    obtain ⟨e, he, hx⟩ := List.mem_flatMap.1 hx
+    exact (matmul_reads_in_operands cfg sz M K N hsz hN hob hib s hs e he).1 x hx
   · intro x hx
-    obtain ⟨k, hk, rfl⟩ := List.mem_map.1 hx
-    have hk' : k < K := by rw [← hkk]; exact List.mem_range.1 hk
-    exact pos_lt hk' hc
+    obtain ⟨s, hs, hx⟩ := List.mem_flatMap.1 hx
+    obtain ⟨e, he, hx⟩ := List.mem_flatMap.1 hx
+    exact (matmul_reads_in_operands cfg sz M K N hsz hN hob hib s hs e he).2 x hx
 
 /-- **tmatmul writes stay inside the result** (from C17.tmatmul_exact) -/
 theorem tmatmul_writes_in_result (cfg : Cfg) (lt rt : Tmatmul.UpLo) (sz M K N : Nat) (hsz : sz = 4 ∨ sz = 8 ∨ sz = 16)
@@ -494,24 +559,60 @@ theorem tmatmul_writes_in_result (cfg : Cfg) (lt rt : Tmatmul.UpLo) (sz M K N : 
     applyWrites (kernelWrites N (Tmatmul.tval a b K N) (Tmatmul.tkernel cfg lt rt sz M K N).2.2) c₀ p = c₀ p :=
   (C17.tmatmul_exact cfg lt rt sz M K N hsz hob hib a b c₀ ha hb).2 p hp
 
-/-- **tmatmul: the clipped `k` range of every final event stays inside `[0,K)`**, so the operand offsets
-    `a[r*K+k]`, `b[k*N+c]` it reads are inside the operands -/
-theorem tmatmul_final_reads_in_operands_partial (cfg : Cfg) (lt rt : Tmatmul.UpLo) (sz M K N : Nat)
+theorem tkernel_preOK (cfg : Cfg) (lt rt : Tmatmul.UpLo) (sz M K N : Nat) :
+    Matmul.AllSegs (Matmul.PreOK K) (Tmatmul.tkernel cfg lt rt sz M K N).2.2 := by
+  unfold Tmatmul.tkernel
+  cases Tmatmul.tdispatch cfg true sz N with
+  | base => exact Tmatmul.allSegs_tbase lt rt M N _ _
+  | baseMasked => exact Tmatmul.allSegs_tbaseMasked lt rt _ M N _ _
+  | nonPrimitive => exact Tmatmul.allSegs_tnonPrimitive lt rt M N
+
+/-- **tmatmul reads stay inside the operands — every store event**: the clipped `k` range `[k0, kk)` of every
+    final event lies in `[0, K)`, and the intermediate events (partial sums of the unclipped remainder rows) re-read
+    a prefix; so every offset `a[r*K+k]`, `b[k*N+c]` the model reads is inside its operand -/
+theorem tmatmul_reads_in_operands (cfg : Cfg) (lt rt : Tmatmul.UpLo) (sz M K N : Nat)
     (hsz : sz = 4 ∨ sz = 8 ∨ sz = 16)
     (hob : ∀ x, cfg.outerBlock = some x → 0 < x) (hib : ∀ x, cfg.innerBlock = some x → 0 < x)
-    (s : Seg) (hs : s ∈ (Tmatmul.tkernel cfg lt rt sz M K N).2.2) (e : St) (he : e ∈ s.fin) :
-    (∀ x ∈ teventReadsA K e, x < M * K) ∧ (∀ x ∈ teventReadsB N e, x < K * N) ∧ e.pos N < M * N := by
-  obtain ⟨hr, hc, hP⟩ := (C17.tkernel_fills cfg lt rt sz M K N hsz hob hib).inside s hs e he
-  have hle : e.kk ≤ K := hP.1
-  refine ⟨?_, ?_, pos_lt hr hc⟩
+    (s : Seg) (hs : s ∈ (Tmatmul.tkernel cfg lt rt sz M K N).2.2) (e : St) (he : e ∈ s.events) :
+    (∀ x ∈ teventReadsA K e, x < M * K) ∧ (∀ x ∈ teventReadsB N e, x < K * N) := by
+  have hfill := C17.tkernel_fills cfg lt rt sz M K N hsz hob hib
+  have key : ∀ r c k0 kk, r < M → c < N → kk ≤ K →
+      (∀ x ∈ (List.range' k0 (kk - k0)).map (fun k => r * K + k), x < M * K) ∧
+      (∀ x ∈ (List.range' k0 (kk - k0)).map (fun k => k * N + c), x < K * N) := by
+    intro r c k0 kk hr hc hk
+    constructor
+    · intro x hx
+      obtain ⟨k, hk', rfl⟩ := List.mem_map.1 hx
+      exact pos_lt hr (by have := List.mem_range'_1.1 hk'; omega)
+    · intro x hx
+      obtain ⟨k, hk', rfl⟩ := List.mem_map.1 hx
+      exact pos_lt (by have := List.mem_range'_1.1 hk'; omega) hc
+  rcases List.mem_append.1 he with hpre | hfin
+  · rcases tkernel_preOK cfg lt rt sz M K N s hs e hpre with h0 | ⟨_, hkk, e', he', hr, hc⟩
+    · simp [teventReadsA, teventReadsB, h0]
+    · obtain ⟨hr', hc', _⟩ := hfill.inside s hs e' he'
+      exact key e.r e.c e.k0 e.kk (hr ▸ hr') (hc ▸ hc') hkk
+  · obtain ⟨hr, hc, hP⟩ := hfill.inside s hs e hfin
+    exact key e.r e.c e.k0 e.kk hr hc hP.1
+
+theorem tmatmul_read_sets_in_operands (cfg : Cfg) (lt rt : Tmatmul.UpLo) (sz M K N : Nat)
+    (hsz : sz = 4 ∨ sz = 8 ∨ sz = 16)
+    (hob : ∀ x, cfg.outerBlock = some x → 0 < x) (hib : ∀ x, cfg.innerBlock = some x → 0 < x) :
+    (∀ x ∈ Tmatmul.readsA K (Tmatmul.tkernel cfg lt rt sz M K N).2.2, x < M * K) ∧
+    (∀ x ∈ Tmatmul.readsB N (Tmatmul.tkernel cfg lt rt sz M K N).2.2, x < K * N) := by
+  rw [treadsA_eq, treadsB_eq]
+  constructor
   · intro x hx
-    obtain ⟨k, hk, rfl⟩ := List.mem_map.1 hx
-    have hk' : k < K := by have := List.mem_range'_1.1 hk; omega
-    exact pos_lt hr hk'
+    obtain ⟨s, hs, hx⟩ := List.mem_flatMap.1 hx
+    obtain ⟨e, he, hx⟩ := List.mem_flatMap.1 hx
+    exact (tmatmul_reads_in_operands cfg lt rt sz M K N hsz hob hib s hs e he).1 x hx
   · intro x hx
-    obtain ⟨k, hk, rfl⟩ := List.mem_map.1 hx
-    have hk' : k < K := by have := List.mem_range'_1.1 hk; omega
-    exact pos_lt hk' hc
+    obtain ⟨s, hs, hx⟩ := List.mem_flatMap.1 hx
+    obtain ⟨e, he, hx⟩ := List.mem_flatMap.1 hx
+    exact (tmatmul_reads_in_operands cfg lt rt sz M K N hsz hob hib s hs e he).2 x hx
+
+/-- non-vacuity: a shape whose kernel has intermediate events (7 rows: a 3-row remainder block storing partial sums) -/
+example : ((Matmul.kernel ⟨.sse, false, false, none, none⟩ 4 7 3 9).2.2.flatMap (·.pre)).length > 0 := by decide
 
 /-- **expression assignment reads stay inside the operands**: the vector body reads `i … i+V-1` for `i` a multiple
     of `V` below `n / V * V`, the scalar tail reads `i < n` — every position `< n`, for every `n` and `V > 0` -/
@@ -559,5 +660,230 @@ theorem einsum_reads_in_operands (p : Einsum.Pair) (hI : p.I.length = p.dI.lengt
 
 /-- non-vacuity: 11 elements at width 4 — the read positions are exactly 0..10 -/
 example : assignReadPositions 11 4 = [0, 1, 2, 3, 4, 5, 6, 7, 8, 9, 10] := by decide
+
+
+/-! ## footprints of the view-write model (C05, Model/ViewWrite.lean) -/
+
+open Fastor.ViewWrite in
+/-- **1-D views write inside the parent tensor and read inside the right-hand side**: when the view selects
+    elements of a tensor of `n` elements (`k*step + first < n` for `k < ext` — what FASTOR_BOUNDS_CHECK asserts), every
+    lane of every iteration (vector body, strided read-modify-write route, scalar tail; every power-of-two width,
+    both settings of FASTOR_USE_VECTORISED_EXPR_ASSIGN) stores at a position `< n` and takes a right-hand-side
+    element `< ext` -/
+theorem view1d_footprint (e : Nat) (he : e ≤ 64) (vea : Bool) (a : Ax) (hn : a.ext < 2 ^ 64) (n : Nat)
+    (hin : ∀ k < a.ext, k * a.step + a.first < n) (l : Nat × Nat)
+    (hl : l ∈ lanesOf (linIters (2 ^ e) vea a)) : l.1 < n ∧ l.2 < a.ext := by
+  unfold linIters at hl
+  rw [seg_lanes e he vea .rmw 0 0 a hn] at hl
+  obtain ⟨k, hk, rfl⟩ := List.mem_map.1 hl
+  have hk' := List.mem_range.1 hk
+  exact ⟨by have := hin k hk'; simpa using this, by simpa using hk'⟩
+
+open Fastor.ViewWrite in
+/-- **2-D views**: rows `step0*i + first0 < M`, columns `k*step1 + first1 < N` ⇒ every store is below `M*N` and every
+    right-hand-side element read is below `ext0*ext1` -/
+theorem view2d_footprint (e : Nat) (he : e ≤ 64) (vea : Bool) (M N : Nat) (a0 a1 : Ax) (hn : a1.ext < 2 ^ 64)
+    (hrow : ∀ i < a0.ext, a0.step * i + a0.first < M) (hcol : ∀ k < a1.ext, k * a1.step + a1.first < N)
+    (l : Nat × Nat) (hl : l ∈ lanesOf (rowIters (2 ^ e) vea N a0 a1)) :
+    l.1 < M * N ∧ l.2 < a0.ext * a1.ext := by
+  rw [C05.row_lanes e he vea N a0 a1 hn] at hl
+  obtain ⟨i, hi, hl⟩ := List.mem_flatMap.1 hl
+  obtain ⟨k, hk, rfl⟩ := List.mem_map.1 hl
+  have hi' := List.mem_range.1 hi
+  have hk' := List.mem_range.1 hk
+  exact ⟨pos_lt (hrow i hi') (hcol k hk'), pos_lt hi' hk'⟩
+
+/-- non-vacuity: `A(seq(1,6,2))` on 7 elements, and a 2x3 block with column step 2 of a 3x7 matrix -/
+example : ∀ k < (⟨1, 2, 3⟩ : ViewWrite.Ax).ext, k * (⟨1, 2, 3⟩ : ViewWrite.Ax).step + (⟨1, 2, 3⟩ : ViewWrite.Ax).first < 7 := by decide
+example : (∀ i < (⟨1, 1, 2⟩ : ViewWrite.Ax).ext, (⟨1, 1, 2⟩ : ViewWrite.Ax).step * i + (⟨1, 1, 2⟩ : ViewWrite.Ax).first < 3) ∧
+    (∀ k < (⟨1, 2, 3⟩ : ViewWrite.Ax).ext, k * (⟨1, 2, 3⟩ : ViewWrite.Ax).step + (⟨1, 2, 3⟩ : ViewWrite.Ax).first < 7) := by decide
+
+
+/-! ## footprints of the fixed-size intrinsic kernels (Model/Kern3.lean) -/
+
+section K3
+open Fastor.Kern3
+
+/-- decidable form of "the list is exactly `{0,…,n-1}` as a set" -/
+def exactly (L : List Nat) (n : Nat) : Bool := L.all (· < n) && (List.range n).all (· ∈ L)
+
+theorem exactly_iff (L : List Nat) (n : Nat) : exactly L n = true ↔ ∀ p, p ∈ L ↔ p < n := by
+  unfold exactly
+  simp only [Bool.and_eq_true, List.all_eq_true, decide_eq_true_eq, List.mem_range]
+  exact ⟨fun h p => ⟨h.1 p, h.2 p⟩, fun h => ⟨fun p hp => (h p).1 hp, fun p hp => (h p).2 hp⟩⟩
+
+/-- **`_transpose<float,3,3>`** (every `#if` branch of the helpers, SSE and AVX2 paths): reads exactly `a[0..8]`,
+    writes exactly `out[0..8]` -/
+theorem transpose33_footprint (br : Branch) (avx2 : Bool) :
+    (∀ p, p ∈ offsets (transpose33 br avx2) 0 false ↔ p < 9) ∧
+    (∀ p, p ∈ offsets (transpose33 br avx2) 2 true ↔ p < 9) := by
+  refine ⟨(exactly_iff _ _).1 ?_, (exactly_iff _ _).1 ?_⟩ <;> cases br <;> cases avx2 <;> decide
+
+/-- the code before the repair read `a[9..]`… and wrote `out[9]` (history; this is F10) -/
+theorem transpose33_before_counterexample :
+    9 ∈ offsets transpose33_before 0 false ∧ 9 ∈ offsets transpose33_before 2 true := by decide
+
+/-- **`_matmul<T,3,3,3>`**: reads exactly `a[0..8]`, `b[0..8]`, writes exactly `out[0..8]`; the 4-lane stores at
+    stride 3 spill one lane into the next row, and the store that owns a cell is the last one to write it -/
+theorem matmul333_footprint (br : Branch) :
+    (∀ p, p ∈ offsets (matmul333 br) 0 false ↔ p < 9) ∧ (∀ p, p ∈ offsets (matmul333 br) 1 false ↔ p < 9) ∧
+    (∀ p, p ∈ offsets (matmul333 br) 2 true ↔ p < 9) ∧ (∀ p, p < 9 → lastWriter (matmul333 br) p = some (p / 3)) := by
+  refine ⟨(exactly_iff _ _).1 ?_, (exactly_iff _ _).1 ?_, (exactly_iff _ _).1 ?_, ?_⟩ <;> cases br <;> decide
+
+theorem matvec331_footprint (br : Branch) :
+    (∀ p, p ∈ offsets (matvec331 br) 0 false ↔ p < 9) ∧ (∀ p, p ∈ offsets (matvec331 br) 1 false ↔ p < 3) ∧
+    (∀ p, p ∈ offsets (matvec331 br) 2 true ↔ p < 3) := by
+  refine ⟨(exactly_iff _ _).1 ?_, (exactly_iff _ _).1 ?_, (exactly_iff _ _).1 ?_⟩ <;> cases br <;> decide
+
+/-- `_norm<·,9>`, `_trace<·,3,3>` (reads the diagonal only, or the whole matrix in the float kernel),
+    `_det<·,3,3>`, `_doublecontract<·,3,3>`: all reads inside the 9 elements -/
+theorem small_kernels_footprint :
+    (∀ p, p ∈ offsets norm9f 0 false ↔ p < 9) ∧ (∀ p, p ∈ offsets norm9d 0 false ↔ p < 9) ∧
+    (∀ p, p ∈ offsets trace33f 0 false ↔ p < 9) ∧ (∀ p ∈ offsets trace33d 0 false, p < 9) ∧
+    (∀ p, p ∈ offsets det33 0 false ↔ p < 9) ∧
+    (∀ p, p ∈ offsets dc33f 0 false ↔ p < 9) ∧ (∀ p, p ∈ offsets dc33f 1 false ↔ p < 9) ∧
+    (∀ p, p ∈ offsets dc33d 0 false ↔ p < 9) ∧ (∀ p, p ∈ offsets dc33d 1 false ↔ p < 9) := by
+  refine ⟨(exactly_iff _ _).1 ?_, (exactly_iff _ _).1 ?_, (exactly_iff _ _).1 ?_, ?_, (exactly_iff _ _).1 ?_,
+    (exactly_iff _ _).1 ?_, (exactly_iff _ _).1 ?_, (exactly_iff _ _).1 ?_, (exactly_iff _ _).1 ?_⟩ <;> decide
+
+
+/-- the whole-vector kernels (2x2, 4x4) and the double 3x3 transpose in its three widths: exactly their operands -/
+theorem whole_vector_kernels_footprint :
+    (∀ vw, vw = 2 ∨ vw = 4 ∨ vw = 8 → (∀ p, p ∈ offsets (transpose33d vw) 0 false ↔ p < 9) ∧
+      (∀ p, p ∈ offsets (transpose33d vw) 2 true ↔ p < 9)) ∧
+    (∀ p, p ∈ offsets unary4f 0 false ↔ p < 4) ∧ (∀ p, p ∈ offsets unary4f 2 true ↔ p < 4) ∧
+    (∀ p, p ∈ offsets unary4d 0 false ↔ p < 4) ∧ (∀ p, p ∈ offsets unary4d 2 true ↔ p < 4) ∧
+    (∀ b, (∀ p, p ∈ offsets (transpose44f b) 0 false ↔ p < 16) ∧ (∀ p, p ∈ offsets (transpose44f b) 2 true ↔ p < 16)) ∧
+    (∀ p, p ∈ offsets matmul222f 0 false ↔ p < 4) ∧ (∀ p, p ∈ offsets matmul222f 1 false ↔ p < 4) ∧
+    (∀ p, p ∈ offsets matmul222f 2 true ↔ p < 4) ∧
+    (∀ p, p ∈ offsets matmul444f 0 false ↔ p < 16) ∧ (∀ p, p ∈ offsets matmul444f 1 false ↔ p < 16) ∧
+    (∀ p, p ∈ offsets matmul444f 2 true ↔ p < 16) := by
+  refine ⟨?_, (exactly_iff _ _).1 (by decide), (exactly_iff _ _).1 (by decide), (exactly_iff _ _).1 (by decide),
+    (exactly_iff _ _).1 (by decide), ?_, (exactly_iff _ _).1 (by decide), (exactly_iff _ _).1 (by decide),
+    (exactly_iff _ _).1 (by decide), (exactly_iff _ _).1 (by decide), (exactly_iff _ _).1 (by decide),
+    (exactly_iff _ _).1 (by decide)⟩
+  · rintro vw (rfl | rfl | rfl) <;> exact ⟨(exactly_iff _ _).1 (by decide), (exactly_iff _ _).1 (by decide)⟩
+  · intro b; cases b <;> exact ⟨(exactly_iff _ _).1 (by decide), (exactly_iff _ _).1 (by decide)⟩
+
+/-- **`_dyadic<T,3,3>`, `_dyadic<float,2,2>`** (after the repair): reads exactly the 3 (2) elements of each operand, writes
+    exactly `out[0..8]` (`out[0..3]`); the code before the repair wrote `out[9]` and read `b[3]` -/
+theorem dyadic_footprint (br : Branch) :
+    (∀ p, p ∈ offsets (dyadic33f br) 0 false ↔ p < 3) ∧ (∀ p, p ∈ offsets (dyadic33f br) 1 false ↔ p < 3) ∧
+    (∀ p, p ∈ offsets (dyadic33f br) 2 true ↔ p < 9) ∧
+    (∀ p, p ∈ offsets (dyadic33d br) 0 false ↔ p < 3) ∧ (∀ p, p ∈ offsets (dyadic33d br) 1 false ↔ p < 3) ∧
+    (∀ p, p ∈ offsets (dyadic33d br) 2 true ↔ p < 9) ∧
+    (∀ p, p ∈ offsets dyadic22f 0 false ↔ p < 2) ∧ (∀ p, p ∈ offsets dyadic22f 2 true ↔ p < 4) ∧
+    (9 ∈ offsets dyadic33f_before 2 true ∧ 3 ∈ offsets dyadic33f_before 1 false) := by
+  refine ⟨(exactly_iff _ _).1 ?_, (exactly_iff _ _).1 ?_, (exactly_iff _ _).1 ?_, (exactly_iff _ _).1 ?_,
+    (exactly_iff _ _).1 ?_, (exactly_iff _ _).1 ?_, (exactly_iff _ _).1 ?_, (exactly_iff _ _).1 ?_, ?_⟩ <;>
+    first | (cases br <;> decide) | decide
+
+theorem offsets_append (A B : List KAcc) (o : Nat) (w : Bool) :
+    offsets (A ++ B) o w = offsets A o w ++ offsets B o w := by
+  simp [offsets, List.filter_append, List.flatMap_append]
+
+theorem offsets_flatMap {ι : Type} (L : List ι) (f : ι → List KAcc) (o : Nat) (w : Bool) :
+    offsets (L.flatMap f) o w = L.flatMap fun x => offsets (f x) o w := by
+  induction L with
+  | nil => rfl
+  | cons x xs ih => simp only [List.flatMap_cons, offsets_append, ih]
+
+/-- **`_matmul<T,3,K,3>` for every `K`**: reads exactly `a[0..3K-1]` and `b[0..3K-1]`, writes exactly `out[0..8]` -/
+theorem matmul3K3_footprint (br : Branch) (K : Nat) :
+    (∀ p, p ∈ offsets (matmul3K3 br K) 0 false ↔ p < 3 * K) ∧
+    (∀ p, p ∈ offsets (matmul3K3 br K) 1 false ↔ p < 3 * K) ∧
+    (∀ p, p ∈ offsets (matmul3K3 br K) 2 true ↔ p < 9) := by
+  have hstores : ∀ o w, offsets [st 0 4, st 3 4, st3 br 6] o w = if o = 2 ∧ w = true then [0, 1, 2, 3, 3, 4, 5, 6, 6, 7, 8] else [] := by
+    intro o w
+    cases br <;> cases w <;> by_cases ho : o = 2 <;> simp [offsets, st, st3, ho, store3_eq, List.range, List.range.loop] <;> omega
+  have hblk : ∀ i o w, offsets [ld3 br 1 (3 * i), el 0 i, el 0 (K + i), el 0 (2 * K + i)] o w =
+      if w = true then [] else if o = 1 then [3 * i, 3 * i + 1, 3 * i + 2] else if o = 0 then [i, K + i, 2 * K + i] else [] := by
+    intro i o w
+    cases w <;> by_cases h1 : o = 1 <;> by_cases h0 : o = 0 <;>
+      simp [offsets, ld3, el, h1, h0, load3_eq] <;> omega
+  unfold matmul3K3
+  simp only [offsets_append, offsets_flatMap, hstores, hblk]
+  refine ⟨fun p => ?_, fun p => ?_, fun p => ?_⟩
+  · simp only [List.mem_append, List.mem_flatMap, List.mem_range]
+    constructor
+    · rintro (⟨i, hi, hp⟩ | hp)
+      · simp at hp; omega
+      · simp at hp
+    · intro hp
+      left
+      by_cases h1 : p < K
+      · exact ⟨p, h1, by simp⟩
+      · by_cases h2 : p < 2 * K
+        · exact ⟨p - K, by omega, by simp; omega⟩
+        · exact ⟨p - 2 * K, by omega, by simp; omega⟩
+  · simp only [List.mem_append, List.mem_flatMap, List.mem_range]
+    constructor
+    · rintro (⟨i, hi, hp⟩ | hp)
+      · simp at hp; omega
+      · simp at hp
+    · intro hp
+      left
+      exact ⟨p / 3, by omega, by simp; omega⟩
+  · simp only [List.mem_append, List.mem_flatMap, List.mem_range]
+    constructor
+    · rintro (⟨i, hi, hp⟩ | hp)
+      · simp at hp
+      · simp at hp; omega
+    · intro hp
+      right; simp; omega
+
+/-- non-vacuity: with `K = 5` the kernel reads 15 elements of each operand -/
+example : exactly (offsets (matmul3K3 .sse 5) 1 false) 15 = true := by decide
+
+end K3
+
+
+/-! ## footprints of the transpose / permute models (C14) and of the inverse leaf kernels (C10 model) -/
+
+/-- **`_transpose<T,M,N>`** (plain loop or register-blocked nest with its pack buffers, any configuration, element size
+    and block-size macros): nothing at or beyond `N*M` is written and every load — the vector loads of the packing
+    loop included — stays inside `a[0 .. M*N)` (restated from C14.transpose_correct_cfg) -/
+theorem transpose_footprint {α : Type} (cfg : Cfg) (sz nR nC : Nat) (hR : 0 < nR) (hC : 0 < nC)
+    (a m : Nat → α) (g1 g2 : Nat → Nat → Nat → α) (M N : Nat) :
+    (∀ p, N * M ≤ p → applyWrites (Transpose.transposeWrites cfg sz nR nC a g1 g2 M N) m p = m p) ∧
+    (∀ r ∈ Transpose.transposeReads cfg sz nR nC M N, r < M * N) :=
+  let h := C14.transpose_correct_cfg cfg sz nR nC hR hC a m g1 g2 M N
+  ⟨h.2.1, h.2.2⟩
+
+/-- **`permute<Index<p...>>`** (both standards, both loop skeletons): nothing at or beyond the size of the result is
+    written (restated from C14.permute_correct; every stored value is `a (flat dims i)` for a multi-index `i` of the
+    shape, i.e. an element of the operand) -/
+theorem permute_writes_in_result {α : Type} (s : Permute.Std) (v : Permute.Variant) (p dims : List Nat) (hne : dims ≠ [])
+    (hpos : ∀ d ∈ dims, 0 < d) (hp : p.Perm (List.range dims.length)) (a m : Nat → α) (pos : Nat)
+    (h : Permute.prod (Permute.newDims p dims) ≤ pos) :
+    applyWrites (Permute.movesWrites a (Permute.permuteMoves s v p dims)) m pos = m pos :=
+  (C14.permute_correct s v p dims hne hpos hp a m).2.2.1 pos h
+
+section InvLeaf
+variable {β : Type} [Zero β] [One β] [Add β] [Sub β] [Neg β] [Mul β] [Div β]
+
+/-- **`_inverse<T,n>`, `n ≤ 4`** (the generic scalar adjugate forms): the result depends on `src[0 .. n*n)` only — two
+    sources that agree there give the same inverse, so nothing outside the operand is read -/
+theorem inverse_leaf_reads_in_operand (n : Nat) (hn : 1 ≤ n ∧ n ≤ 4) (s s' : Nat → β)
+    (h : ∀ k, k < n * n → s k = s' k) : Inv.leafFlat n s = Inv.leafFlat n s' := by
+  obtain ⟨h1, h4⟩ := hn
+  have hcases : n = 1 ∨ n = 2 ∨ n = 3 ∨ n = 4 := by omega
+  rcases hcases with rfl | rfl | rfl | rfl
+  · have e0 := h 0 (by omega)
+    simp only [Inv.leafFlat]; unfold Inv.inv1; rw [e0]
+  · have e0 := h 0 (by omega); have e1 := h 1 (by omega); have e2 := h 2 (by omega); have e3 := h 3 (by omega)
+    simp only [Inv.leafFlat, Inv.inv2, e0, e1, e2, e3]
+  · have e0 := h 0 (by omega); have e1 := h 1 (by omega); have e2 := h 2 (by omega); have e3 := h 3 (by omega)
+    have e4 := h 4 (by omega); have e5 := h 5 (by omega); have e6 := h 6 (by omega); have e7 := h 7 (by omega)
+    have e8 := h 8 (by omega)
+    simp only [Inv.leafFlat, Inv.inv3, e0, e1, e2, e3, e4, e5, e6, e7, e8]
+  · have e0 := h 0 (by omega); have e1 := h 1 (by omega); have e2 := h 2 (by omega); have e3 := h 3 (by omega)
+    have e4 := h 4 (by omega); have e5 := h 5 (by omega); have e6 := h 6 (by omega); have e7 := h 7 (by omega)
+    have e8 := h 8 (by omega); have e9 := h 9 (by omega); have e10 := h 10 (by omega); have e11 := h 11 (by omega)
+    have e12 := h 12 (by omega); have e13 := h 13 (by omega); have e14 := h 14 (by omega); have e15 := h 15 (by omega)
+    simp only [Inv.leafFlat, Inv.inv4, Nat.reduceMul, Nat.reduceAdd, Nat.zero_add, e0, e1, e2, e3, e4, e5, e6, e7, e8, e9, e10, e11,
+      e12, e13, e14, e15]
+
+end InvLeaf
 
 end Fastor.C07
